@@ -134,6 +134,7 @@ int   sim_fault(const char *site);
 int   sim_fault_pending_total(void);
 int   sim_faults_fired(void);          /* error-injecting faults only (short transfers excluded) */
 int   sim_fault_fired_site(const char *site);
+int   sim_fault_fired_err(const char *site, int err);   /* fired faults of that site that injected that errno */
 int   sim_fault_fired_op(int op);         /* faults attached to plan op `op` that fired so far */
 
 /* simulated timerfd / clock / pidfd access for harness oracles */
@@ -198,7 +199,7 @@ extern sim_knobs_t sim_knobs;
 
 int   sim_qwrite_fails(void);            /* failed message-queue writes issued by the calling fiber so far */
 int   sim_qwrite_fail_errno(void);
-void *sim_fiber_tls(int fiber, int key);
+int   sim_fiber_has_tls_value(int fiber, const void *val);
 int   sim_decisions_taken(const short **out);
 
 /* simulated network for connect(): port -> outcome */
